@@ -821,6 +821,18 @@ struct TupSys<IsPair, K, TL<Ts...>, TL<Us...>> {
             counted(cx, subj, cls, "tuple_cat of two const lvalues", [&] { r2.emplace(etl::tuple_cat(cv, cv)); }, [&] { m2.emplace(std::tuple_cat(cm, cm)); });
             ceq(cx, "C20", subj, cls, "tuple_cat(X const&, X const&) values", tl_show<2 * N>(*r2), tl_show<2 * N>(*m2));
         }
+        // tuple_cat of ONE NON-const lvalue must copy its elements and leave the source untouched (added after seeded
+        // breakage c20_tuple_cat_single_lvalue_moves: the single-argument entry point moved from an lvalue)
+        if constexpr (copyable) {
+            std::string const subj = cat("tuple_cat(", family(), "&)");
+            using R1               = decltype(etl::tuple_cat(v));
+            type_is<to_std_t<R1>, decltype(std::tuple_cat(std::declval<SV&>()))>(cx, subj, cls, "tuple_cat(X&)");
+            std::optional<R1> r1;
+            std::optional<decltype(std::tuple_cat(m))> m1;
+            counted(cx, subj, cls, "tuple_cat of one non-const lvalue", [&] { r1.emplace(etl::tuple_cat(v)); }, [&] { m1.emplace(std::tuple_cat(m)); });
+            ceq(cx, "C20", subj, cls, "tuple_cat(X&) values", tl_show<N>(*r1), tl_show<N>(*m1));
+            same(cx, subj, cls, cv, cm, "source after tuple_cat(X&)");
+        }
         same(cx, cat(family(), "::<observers>"), cls, cv, cm, "after the observers");
         if constexpr (tracked) { drain_lifetimes(cx, cat(family(), "::<observers>"), cls); }
     }
